@@ -183,6 +183,7 @@ int Canon::canon(int t) {
   else if (x.op == TT.OP_FADD && TT.t[x.a[0]].op == TT.OP_CF && TT.t[x.a[0]].k == INT64_MIN) r = x.a[1]; // x + (-0.0) == x for every x
   else if (x.op == TT.OP_FADD && TT.t[x.a[1]].op == TT.OP_CF && TT.t[x.a[1]].k == INT64_MIN) r = x.a[0];
   else if (x.op == TT.OP_FSUB && TT.t[x.a[1]].op == TT.OP_CF && TT.t[x.a[1]].k == 0) r = x.a[0]; // x - (+0.0) == x for every x
+  else if (divSelfIsOne && x.op == TT.OP_FDIV && x.a[0] == x.a[1]) r = TT.cfp(1.0, x.bytes);
   else if (x.op == TT.OP_FSUB && TT.t[x.a[0]].op == TT.OP_CF && TT.t[x.a[0]].k == INT64_MIN) r = canon(TT.mk(TT.OP_FNEG, {x.a[1]}, 0, x.bytes));
   else if (x.op == TT.OP_FNEG && TT.t[x.a[0]].op == TT.OP_FNEG) r = TT.t[x.a[0]].a[0];
   else if (x.op == TT.OP_FNEG && TT.t[x.a[0]].op == TT.OP_CF) r = TT.cfp(-TT.cfval(x.a[0]), x.bytes);
@@ -599,6 +600,7 @@ CmpResult Comparer::compare(int a, int b, const std::string &mode, bool fp, int 
   CmpResult res;
   if (a == b) { res.how = "identical"; nCanon++; return res; }
   { const Term &ta = TT.t[a]; if (ta.op == TT.OP_UNDEF || ta.op == TT.OP_TOP) { res.v = V_VIOLATION; res.how = "value is undefined/unknown"; res.got = TT.str(a); res.expected = TT.str(b, 3); return res; } }
+  if (mode == "EXACTDIV") { Canon CD; CD.divSelfIsOne = true; if (CD.canon(a) == CD.canon(b)) { res.how = "canonical (x/x = 1 on the domain of definition)"; nCanon++; return res; } }
   int ca = C.canon(a), cb = C.canon(b);
   if (ca == cb) { res.how = "canonical"; nCanon++; return res; }
   bool structuralOnly = false;
